@@ -25,6 +25,14 @@ def run_case(case, cap):
   algo = getattr(alg.Algorithm, name)
   hp = alg.HParams(delta=case["delta"], lr=case["lr"], sketch_size=ell, algorithm=algo)
   init, update = alg.generate_init_update((d,), hp)
+  # the bound pair is used for an unrelated warm-up sequence first, the way a caller would reuse it for
+  # several data sets, handing the state object itself to update (the update functions write into the
+  # dict they are given): init() must still return the initial state for the checked sequence (added
+  # after a seeded change that built the initial state once at bind time was missed)
+  warm = init()
+  cap.reset()
+  warm = update(warm, jnp.asarray(0.0), jnp.asarray(np.arange(1, d + 1, dtype=np.float64)))
+  cap.reset()
   st = init()
   out = dict(case=case, G=[fl(g) for g in hist], n=d, ell=ell)
   delta, lr = float(case["delta"]), float(case["lr"])
